@@ -37,6 +37,10 @@ type ruleSetEndpoint struct {
 
 func (e *ruleSetEndpoint) ID() string { return e.URL }
 
+// errUnexpectedResponse tells an answer of the endpoint, which is not usable,
+// from network issues, due to which there is no answer at all.
+var errUnexpectedResponse = errors.New("unexpected response")
+
 func (e *ruleSetEndpoint) FetchRuleSet(ctx context.Context) (*config.RuleSet, error) {
 	req, err := e.CreateRequest(ctx, nil, nil)
 	if err != nil {
@@ -65,7 +69,7 @@ func (e *ruleSetEndpoint) FetchRuleSet(ctx context.Context) (*config.RuleSet, er
 
 	if resp.StatusCode != http.StatusOK {
 		return nil, errorchain.NewWithMessagef(heimdall.ErrCommunication,
-			"unexpected response code: %v", resp.StatusCode)
+			"unexpected response code: %v", resp.StatusCode).CausedBy(errUnexpectedResponse)
 	}
 
 	md := sha256.New()
